@@ -52,13 +52,14 @@ def gen_rec(rng, allow_deep=True, deep_only=False):
     iterative, kind, distinct."""
     rules = []
     kind = rng.choice(['generic', 'generic', 'generic', 'counter', 'shortest', 'negation',
-                       'multiset'])
+                       'multiset', 'dneg', 'looppair'])
     labels = {'kind:' + kind}
     weighted = kind == 'shortest'
     shape, ne = gen_graph(rng, rules, weighted)
     labels.add('graph:' + shape)
     names = []
     distinct = True
+    force_ann = None
     if kind == 'counter':
         k = rng.randint(2, 12)
         distinct = rng.random() < 0.6
@@ -90,6 +91,43 @@ def gen_rec(rng, allow_deep=True, deep_only=False):
         rules.append(mk_rule('Rr', [(0, V('y'))],
                              [call('Rr', V('x')), call('E', V('x'), V('y')),
                               ('neg', (call('Bb', V('y')),), 0)], distinct=True))
+    elif kind == 'dneg':
+        # monotone recursion through a double negation: "all predecessors are in";
+        # the recursive call occurs only inside the negation
+        names = ['Rr']
+        if rng.random() < 0.7:
+            # keep the graph's roots out of the given set V: they are then derived by the
+            # negation rule alone (vacuously), from the very first application on
+            heads_in = set(r['head'][1][1][1] for r in rules if r['pred'] == 'E')
+            rules[:] = [r for r in rules if not (r['pred'] == 'V' and
+                                                 r['head'][0][1][1] not in heads_in)]
+            if not any(r['pred'] == 'V' for r in rules):
+                rules.append(mk_rule('V', [(0, L(20))]))
+            labels.add('dneg_roots_not_given')
+        rules.append(mk_rule('Rr', [(0, V('x'))], [call('V', V('x'))], distinct=True))
+        inner = (call('E', V('y'), V('x')), ('neg', (call('Rr', V('y')),), 0))
+        # candidates x are sources of edges: a source without predecessors that is not
+        # in V is derived (vacuously) by this rule alone, already from the empty relation
+        src = rng.choice(['Eout', 'Eout', 'Ein', 'V'])
+        first = (call('E', V('x'), V('z')) if src == 'Eout' else
+                 call('E', V('z'), V('x')) if src == 'Ein' else call('V', V('x')))
+        rules.append(mk_rule('Rr', [(0, V('x'))], [first, ('neg', inner, 0)], distinct=True))
+    elif kind == 'looppair':
+        # two members, only ONE of which cuts every cycle (it has a self loop, the other
+        # has none): annotating the other one must still unfold depth+1 joint steps
+        names = ['Ra', 'Rb']
+        rng.shuffle(names)
+        a, b = names            # a: self loop + reads b;  b: reads a
+        rules.append(mk_rule(a, [(0, V('x'))], [call('V', V('x'))], distinct=True))
+        rules.append(mk_rule(a, [(0, V('y'))], [call(a, V('x')), call('E', V('x'), V('y'))],
+                             distinct=True))
+        rules.append(mk_rule(a, [(0, V('x'))], [call(b, V('x'))], distinct=True))
+        rules.append(mk_rule(b, [(0, V('y'))], [call(a, V('x')), call('E', V('x'), V('y'))],
+                             distinct=True))
+        if rng.random() < 0.5:
+            rules.append(mk_rule(b, [(0, V('x'))], [call('V', V('x'))], distinct=True))
+        labels.add('component:looppair')
+        force_ann = b if rng.random() < 0.7 else a
     else:
         distinct = kind != 'multiset'
         k = rng.choice([1, 1, 2, 2, 3]) if distinct else rng.choice([1, 1, 2])
@@ -142,6 +180,8 @@ def gen_rec(rng, allow_deep=True, deep_only=False):
                 rules.append(mk_rule(n, head, body, distinct=distinct))
     # depth and annotation
     r = rng.random()
+    if kind == 'looppair' and r < 0.25:
+        r = 0.5                 # looppair is about the annotated member: always annotate
     ann = None
     depth = 8
     iterative = False
@@ -157,6 +197,11 @@ def gen_rec(rng, allow_deep=True, deep_only=False):
     else:
         depth = rng.choice(DEPTHS_DEEP)
         ann = rng.choice(names)
+    if kind == 'looppair' and ann is not None:
+        ann = force_ann
+    if kind == 'dneg' and not deep_only and rng.random() < 0.6:
+        depth = rng.choice([1, 2, 3, 4])
+        ann = names[0]
     if kind == 'multiset' and depth > 4:
         depth = rng.randint(1, 4)
         ann = rng.choice(names)
